@@ -216,14 +216,19 @@ pub trait Chargeable: field::Inputs + field::Witnesses + field::Policies {
         // execution required to validate transaction validity rules.
         let min_gas = self.min_gas(gas_costs, fee);
 
-        let total_used_gas = min_gas.saturating_add(used_gas);
+        // The sum of two `u64` always fits into `u128`. Saturating it at `u64::MAX` would
+        // under-charge the used gas and return a refund that is too large.
+        let total_used_gas = (min_gas as u128).saturating_add(used_gas as u128);
         let tip = self.policies().get(PolicyType::Tip).unwrap_or(0);
-        let used_fee = gas_to_fee(total_used_gas, gas_price, fee.gas_price_factor())
+        // If the product overflows `u128`, the fee exceeds any `u64` fee limit.
+        let used_fee = total_used_gas
+            .checked_mul(gas_price as u128)?
+            .div_ceil(fee.gas_price_factor() as u128)
             .saturating_add(tip as u128);
 
-        // It is okay to saturate everywhere above because it only can decrease the value
-        // of `refund`. But here, because we need to return the amount we
-        // want to refund, we need to handle the overflow caused by the price.
+        // Saturating the tip addition can only decrease the value of `refund`. But here,
+        // because we need to return the amount we want to refund, we need to handle the
+        // overflow caused by the price.
         let used_fee: u64 = used_fee.try_into().ok()?;
         self.max_fee_limit().checked_sub(used_fee)
     }
